@@ -274,6 +274,7 @@ class Ctx:
         self.open_findings = set(open_findings)
         self.notes = []
         self._feas_cache = {}
+        self.base_len = 0
 
     # -- fresh symbols
     def fresh_name(self, base):
@@ -378,19 +379,29 @@ class Ctx:
         self.pc.append(z3.simplify(zbool(cond)))
 
     def check(self, name, cond, known=None, finding=None, label="proved", extra=None):
-        """Record the obligation  pc => cond.  ``known``: pattern predicate K of an open finding."""
+        """Record the obligation  pc => cond.
+
+        ``known``: pattern predicate K of an open finding ``finding``, or a list of (finding id, K)."""
         goal = z3.BoolVal(cond) if isinstance(cond, bool) else zbool(cond)
-        if finding is not None and finding not in self.open_findings:
-            known = None
-            finding = None
-        k = None
-        if known is not None:
-            k = z3.BoolVal(known) if isinstance(known, bool) else zbool(known)
-        self.obligations.append(Obligation(name, self.pc, goal, k, finding, self.trace[:self.pos],
+        pairs = []
+        if isinstance(known, list):
+            pairs = known
+        elif known is not None and finding is not None:
+            pairs = [(finding, known)]
+        ks = []
+        for fid, k in pairs:
+            if fid not in self.open_findings or k is False:
+                continue
+            ks.append((fid, z3.BoolVal(k) if isinstance(k, bool) else zbool(k)))
+        self.obligations.append(Obligation(name, self.pc, goal, ks or None, None, self.trace[:self.pos],
                                            label=label, extra=extra))
 
     def note(self, text):
         self.notes.append(text)
+
+    def mark_base(self):
+        """Everything assumed so far is a unit-level assumption (kept when a loop step drops the path condition)."""
+        self.base_len = len(self.pc)
 
 
 # ----------------------------------------------------------------------------- discharge
@@ -412,7 +423,7 @@ def discharge(theory, ob, timeout_ms=10000, seed=0):
         return r, s
 
     neg = z3.Not(ob.goal)
-    if ob.known is None:
+    if not ob.known:
         r, s = query([neg])
         if r == z3.unsat:
             ob.verdict = "proved"
@@ -422,23 +433,32 @@ def discharge(theory, ob, timeout_ms=10000, seed=0):
         else:
             ob.verdict = "unknown"
     else:
-        # outside the known pattern the obligation must hold ...
-        r, s = query([z3.Not(ob.known), neg])
+        # outside every known pattern the obligation must hold ...
+        anyk = z3.Or(*[k for _, k in ob.known])
+        r, s = query([z3.Not(anyk), neg])
         if r == z3.sat:
             ob.verdict = "refuted"
             ob.model = s.model()
         elif r != z3.unsat:
             ob.verdict = "unknown"
         else:
-            # ... and inside it we report whether the finding is still there
-            r2, s2 = query([ob.known, neg])
-            if r2 == z3.sat:
+            # ... and inside each pattern we report whether that finding is still there
+            seen = []
+            unk = False
+            for fid, k in ob.known:
+                r2, s2 = query([k, neg])
+                if r2 == z3.sat:
+                    seen.append(fid)
+                    ob.model = s2.model()
+                elif r2 != z3.unsat:
+                    unk = True
+            if seen:
                 ob.verdict = "known"
-                ob.model = s2.model()
-            elif r2 == z3.unsat:
-                ob.verdict = "proved"
-            else:
+                ob.finding = "+".join(seen)
+            elif unk:
                 ob.verdict = "unknown"
+            else:
+                ob.verdict = "proved"
     ob.seconds = time.time() - t0
     ob.backend = "z3-%s" % z3.get_version_string()
     return ob
@@ -449,10 +469,10 @@ def to_smt2(theory, ob, negate_goal=True, with_known=None):
     for e in theory.exprs():
         s.add(e)
     s.add(*ob.pc)
-    if with_known is True and ob.known is not None:
-        s.add(ob.known)
-    if with_known is False and ob.known is not None:
-        s.add(z3.Not(ob.known))
+    if with_known is True and ob.known:
+        s.add(z3.Or(*[k for _, k in ob.known]))
+    if with_known is False and ob.known:
+        s.add(z3.Not(z3.Or(*[k for _, k in ob.known])))
     if negate_goal:
         s.add(z3.Not(ob.goal))
     return s.to_smt2()
